@@ -112,8 +112,12 @@ func cmdCheck(args []string) int {
 	var funcs []string
 	trusted := map[string]bool{}
 	var engineErrs []string
+	var coneFuncs []string
 	for _, r := range out.results {
 		funcs = append(funcs, shortFuncKey(r.Key))
+		if r.Cone {
+			coneFuncs = append(coneFuncs, shortFuncKey(r.Key))
+		}
 		for _, t := range r.Trust {
 			trusted[t] = true
 		}
@@ -158,12 +162,29 @@ func cmdCheck(args []string) int {
 	infeasible := []string{}
 	pathCovers := 0
 	var solverMs int64
+	deadHeads := map[string]bool{}
+	for _, ob := range all {
+		if ob.Expect == "pathcover" && strings.HasSuffix(ob.Label, ":head-reachable") && ob.Status == "unsat" {
+			deadHeads[ob.Func+"|"+strings.TrimSuffix(ob.Label, ":head-reachable")+"|"+ob.Path] = true
+		}
+	}
 	for _, ob := range all {
 		solverMs += ob.Ms
 		if ob.Expect == "pathcover" {
 			pathCovers++
+			if strings.HasSuffix(ob.Label, ":head-reachable") {
+				continue // only the reference point for the later-iteration audit
+			}
+			if strings.Contains(ob.Label, "later-iteration-reachable") && deadHeads[ob.Func+"|"+strings.TrimSuffix(ob.Label, ":later-iteration-reachable")+"|"+ob.Path] {
+				continue // the loop head itself is unreachable on this path (dead branch)
+			}
 			if ob.Status == "unsat" {
-				infeasible = append(infeasible, shortFuncKey(ob.Func)+" path "+ob.Path+" (return at "+ob.Site+")")
+				if strings.Contains(ob.Label, "later-iteration-reachable") {
+					infeasible = append(infeasible, shortFuncKey(ob.Func)+" "+ob.Label+": the loop-head state admits no iteration after the first (loop at "+ob.Site+")")
+					fmt.Printf("AUDIT: %s %s: the state assumed at the loop head admits no iteration after the first - what is proved after the loop may be vacuous\n", shortFuncKey(ob.Func), ob.Label)
+				} else {
+					infeasible = append(infeasible, shortFuncKey(ob.Func)+" path "+ob.Path+" (return at "+ob.Site+")")
+				}
 			}
 			continue
 		}
@@ -321,6 +342,7 @@ func cmdCheck(args []string) int {
 		"checker_cmd":              fmt.Sprintf("/verif/bin/govc check -property %s -tier %s  (z3-new 5.1.0 -> cvc5 1.0 --enum-inst -> z3 4.8.12, %ds per query)", o.prop, o.tier, o.timeout),
 		"trusted_base":             tb,
 		"functions_under_contract": funcs,
+		"of_which_in_the_callee_cone_only": coneFuncs,
 		"path_queries":             len(all),
 		"backends":                 backends,
 		"solver_time_s":            float64(solverMs) / 1000.0,
